@@ -5,7 +5,8 @@
    finite map over terminated keys). *)
 From Coq Require Import ZifyBool ZifyN ZifyNat Permutation.
 From AQ Require Import Lib.Bytes Rlp.RlpSpec Trie.MptSpec Trie.TrieModel Trie.TrieInv Trie.TrieProofs
-  Trie.TrieInsertProofs Trie.TrieDeleteProofs Trie.TrieRootProofs Trie.MptSpecProofs Trie.TrieContentProofs.
+  Trie.TrieInsertProofs Trie.TrieDeleteProofs Trie.TrieRootProofs Trie.MptSpecProofs Trie.TrieContentProofs
+  Trie.TrieDecodeProofs Trie.TrieIterProofs Trie.TrieFlagsProofs Trie.TrieCodecDefs Trie.TrieVerifyProofs Trie.TrieReopenProofs.
 Local Open Scope N_scope.
 
 (* a canonical, fully loaded trie without cached hashes: what update / delete /
@@ -160,3 +161,212 @@ Proof.
   unfold trie_prove. cbn [troot empty_trie]. unfold key_fuel.
   destruct (keybytes_to_hex k) eqn:E; [destruct k; discriminate|]. reflexivity.
 Qed.
+
+(* ------------------------------------------------------------------ byte keys only *)
+
+(* every key of the content is the nibble form of a byte key (what TryUpdate inserts) *)
+Definition hexmap (t : trie) : Prop :=
+  forall k v, lookup (tcontent t) k = Some v -> exists kb, k = keybytes_to_hex kb.
+
+Lemma lookup_some_in (J : content) k v : lookup J k = Some v -> In (k, v) J.
+Proof.
+  induction J as [|[k0 v0] J IH]; cbn [lookup fst snd]; [discriminate|].
+  destruct (bytes_eqb_spec k0 k) as [->|]; [intros E; injection E as ->; now left|right; auto].
+Qed.
+
+Lemma trie_update_hexmap : forall t d k v t', canon_trie t -> v <> [] -> hexmap t ->
+  trie_update t d k v = Ok t' -> hexmap t'.
+Proof.
+  intros t d k v t' Hc Hv Hm E. unfold trie_update in E. destruct v as [|v0 v]; [contradiction|].
+  destruct (insert_canon (key_fuel (keybytes_to_hex k)) d (tgen t) (troot t) (keybytes_to_hex k) (v0 :: v)
+              Hc (tkeyb_hex k) eq_refl (key_fuel_ok _)) as (dirty & n' & E' & _ & _ & _ & Hlk & _).
+  rewrite E' in E. cbn [bind] in E. injection E as <-.
+  intros k' v'. unfold tcontent. cbn [troot]. rewrite Hlk.
+  destruct (bytes_eqb_spec (keybytes_to_hex k) k') as [<-|_]; [eauto|apply Hm].
+Qed.
+
+Lemma trie_delete_hexmap : forall t d k t', canon_trie t -> hexmap t ->
+  trie_delete t d k = Ok t' -> hexmap t'.
+Proof.
+  intros t d k t' Hc Hm E. unfold trie_delete in E.
+  destruct (delete_spec (key_fuel (keybytes_to_hex k)) d (tgen t) (troot t) (keybytes_to_hex k)
+              Hc (tkeyb_hex k) (key_fuel_ok _)) as (dirty & n' & E' & Hc' & Hlk & _).
+  rewrite E' in E. cbn [bind] in E. injection E as <-.
+  intros k' v' Hl. unfold tcontent in Hl. cbn [troot] in Hl.
+  assert (Htk : tkeyb k' = true).
+  { apply lookup_some_in in Hl. destruct (canon_root_wf_content _ Hc') as [_ Hall].
+    rewrite Forall_forall in Hall. exact (Hall _ Hl). }
+  rewrite (Hlk k' Htk) in Hl. destruct (bytes_eqb (keybytes_to_hex k) k'); [discriminate|]. exact (Hm _ _ Hl).
+Qed.
+
+Theorem apply_ops_hexmap : forall ops t d t', fresh_trie t -> hexmap t -> apply_ops t d ops = Ok t' -> hexmap t'.
+Proof.
+  induction ops as [|[k v] ops IH]; intros t d t' Hf Hm E; cbn [apply_ops] in E.
+  - now injection E as <-.
+  - destruct v as [|v0 v].
+    + destruct (trie_delete_spec t d k Hf) as (t1 & E1 & Hf1 & _).
+      change (trie_update t d k []) with (trie_delete t d k) in E. rewrite E1 in E. cbn [bind] in E.
+      exact (IH _ _ _ Hf1 (trie_delete_hexmap _ _ _ _ (proj1 Hf) Hm E1) E).
+    + destruct (trie_update_spec t d k (v0 :: v) Hf ltac:(discriminate)) as (t1 & E1 & Hf1 & _).
+      rewrite E1 in E. cbn [bind] in E.
+      exact (IH _ _ _ Hf1 (trie_update_hexmap t d k (v0 :: v) t1 (proj1 Hf) ltac:(discriminate) Hm E1) E).
+Qed.
+
+Lemma hexmap_empty : hexmap empty_trie.
+Proof. intros k v. discriminate. Qed.
+
+(* equal byte-key maps are equal nibble-key maps *)
+Lemma tmap_ext_lookup : forall t1 t2, hexmap t1 -> hexmap t2 -> (forall kb, tmap t1 kb = tmap t2 kb) ->
+  forall k, lookup (tcontent t1) k = lookup (tcontent t2) k.
+Proof.
+  intros t1 t2 H1 H2 Hm k.
+  destruct (lookup (tcontent t1) k) as [v|] eqn:E1.
+  - destruct (H1 _ _ E1) as (kb & ->). symmetry. rewrite <- E1. symmetry. apply Hm.
+  - destruct (lookup (tcontent t2) k) as [v|] eqn:E2; [|reflexivity].
+    destruct (H2 _ _ E2) as (kb & ->). rewrite <- E1, <- E2. apply Hm.
+Qed.
+
+Section HistoriesBytes.
+Variable H : bytes -> bytes.
+Hypothesis Hlen : forall x, length (H x) = 32%nat.
+
+(* the property's statement for update/delete histories: two histories that
+   denote the same finite map (over byte keys) end with the same root, which is
+   the specification's root of the content *)
+Theorem history_root_map_only : forall ops1 ops2 d1 d2 t1 t2,
+  apply_ops empty_trie d1 ops1 = Ok t1 -> apply_ops empty_trie d2 ops2 = Ok t2 ->
+  (forall kb, map_ops (fun _ => None) ops1 kb = map_ops (fun _ => None) ops2 kb) ->
+  exists r t1' t2', trie_hash H t1 = Ok (r, t1') /\ trie_hash H t2 = Ok (r, t2') /\ r = mpt_root_hex H (tcontent t1).
+Proof.
+  intros ops1 ops2 d1 d2 t1 t2 E1 E2 Hm.
+  destruct (history_spec ops1 d1) as (t1x & E1x & F1 & M1). rewrite E1 in E1x. injection E1x as <-.
+  destruct (history_spec ops2 d2) as (t2x & E2x & F2 & M2). rewrite E2 in E2x. injection E2x as <-.
+  apply (root_content_only H Hlen); auto.
+  apply tmap_ext_lookup.
+  - exact (apply_ops_hexmap _ _ _ _ fresh_empty hexmap_empty E1).
+  - exact (apply_ops_hexmap _ _ _ _ fresh_empty hexmap_empty E2).
+  - intros kb. now rewrite M1, M2.
+Qed.
+End HistoriesBytes.
+
+(* ------------------------------------------------------------------ totality of decoding / verification *)
+Theorem decode_top_total : forall hash buf gen,
+  decode_node_top hash buf gen <> Panic /\ decode_node_top hash buf gen <> OutOfFuel.
+Proof. intros. split; [apply decode_node_top_no_panic|apply decode_node_top_fuel]. Qed.
+
+Theorem verify_never_panics : forall (H : bytes -> bytes) root key nodes,
+  verify_proof root key (proof_db_of H nodes) <> Panic.
+Proof. intros. apply verify_proof_no_panic. Qed.
+
+(* ------------------------------------------------------------------ histories with intermediate Hash() *)
+(* warm_trie H t (TrieFlagsProofs): canonical shape + every cached hash is the
+   hash of the node's specification encoding (and, below the root, only cached
+   for encodings of at least 32 bytes).  Plain operations: update, delete, get, hash. *)
+Section PlainHistories.
+Variable H : bytes -> bytes.
+Hypothesis Hlen : forall x, length (H x) = 32%nat.
+
+Lemma step_hexmap : forall s o, warm_trie H (strie s) -> plain_op o = true -> hexmap (strie s) ->
+  hexmap (strie (fst (step H s o))).
+Proof.
+  intros s o Hw Hp Hm. pose proof (proj1 Hw) as Hc.
+  destruct o as [k v|k|k| | | | | |]; try discriminate; cbn [step].
+  - destruct v as [|v0 v].
+    + destruct (trie_delete_warm H _ (sdb s) k Hw) as (t' & E & _).
+      change (trie_update (strie s) (sdb s) k []) with (trie_delete (strie s) (sdb s) k). rewrite E. cbn [fst strie].
+      exact (trie_delete_hexmap _ _ _ _ Hc Hm E).
+    + destruct (trie_update_warm H (strie s) (sdb s) k (v0 :: v) Hw ltac:(discriminate)) as (t' & E & _).
+      rewrite E. cbn [fst strie]. exact (trie_update_hexmap (strie s) (sdb s) k (v0 :: v) t' Hc ltac:(discriminate) Hm E).
+  - destruct (trie_delete_warm H _ (sdb s) k Hw) as (t' & E & _). rewrite E. cbn [fst strie].
+    exact (trie_delete_hexmap _ _ _ _ Hc Hm E).
+  - rewrite (trie_get_warm H _ (sdb s) k Hw). cbn [fst strie]. exact Hm.
+  - destruct (trie_hash_warm H Hlen _ Hw) as (t' & E & _ & _ & Ec & _). rewrite E. cbn [fst strie].
+    intros k v. unfold tcontent. rewrite Ec. apply Hm.
+Qed.
+
+Lemma run_hexmap : forall ops s, warm_trie H (strie s) -> forallb plain_op ops = true -> hexmap (strie s) ->
+  hexmap (strie (fst (run_ops H s ops))).
+Proof.
+  induction ops as [|o ops IH]; intros s Hw Hp Hm; [exact Hm|].
+  cbn [forallb] in Hp. apply andb_true_iff in Hp as [Hpo Hpr].
+  cbn [run_ops]. destruct (step_warm H Hlen s o Hw Hpo) as (s1 & E1 & Hw1 & _).
+  pose proof (step_hexmap s o Hw Hpo Hm) as Hm1. rewrite E1 in Hm1 |- *. cbn [fst] in Hm1.
+  specialize (IH s1 Hw1 Hpr Hm1). destruct (run_ops H s1 ops) as [s2 obl]. exact IH.
+Qed.
+
+(* the property for histories of update / delete / get / hash in any order, with
+   Hash() called anywhere in between: every operation succeeds, every
+   observation is the one the denoted finite map gives (gets = map lookups,
+   every intermediate root = the specification root of the content at that
+   point), and the final trie is canonical *)
+Theorem plain_history_spec : forall ops,
+  forallb plain_op ops = true ->
+  exists s' obl, run_ops H init_state ops = (s', obl) /\ warm_trie H (strie s') /\ sdb s' = @nil (bytes * bytes) /\
+    (forall k, tmap (strie s') k = fold_left op_map ops (fun _ => None) k) /\
+    trace_ok H (fun _ => None) ops obl.
+Proof.
+  intros ops Hp.
+  destruct (run_plain_warm H Hlen ops init_state (fun _ => None) (warm_empty H) (fun _ => eq_refl) Hp)
+    as (s' & obl & E & Hw & Hd & Hm & Ht).
+  exists s', obl. repeat split; auto; apply Hw.
+Qed.
+
+(* ... and two such histories that denote the same finite map end with the same
+   root: the specification's root of that map's content *)
+Theorem plain_history_root_map_only : forall ops1 ops2 s1 s2 ob1 ob2,
+  forallb plain_op ops1 = true -> forallb plain_op ops2 = true ->
+  run_ops H init_state ops1 = (s1, ob1) -> run_ops H init_state ops2 = (s2, ob2) ->
+  (forall kb, fold_left op_map ops1 (fun _ => None) kb = fold_left op_map ops2 (fun _ => None) kb) ->
+  exists r t1' t2', trie_hash H (strie s1) = Ok (r, t1') /\ trie_hash H (strie s2) = Ok (r, t2') /\
+    r = mpt_root_hex H (tcontent (strie s1)).
+Proof.
+  intros ops1 ops2 s1 s2 ob1 ob2 P1 P2 E1 E2 Hm.
+  destruct (run_plain_warm H Hlen ops1 init_state (fun _ => None) (warm_empty H) (fun _ => eq_refl) P1)
+    as (s1x & o1x & E1x & _ & _ & M1 & _). rewrite E1 in E1x. injection E1x as <- <-.
+  destruct (run_plain_warm H Hlen ops2 init_state (fun _ => None) (warm_empty H) (fun _ => eq_refl) P2)
+    as (s2x & o2x & E2x & _ & _ & M2 & _). rewrite E2 in E2x. injection E2x as <- <-.
+  apply (plain_history_root_content_only H Hlen ops1 ops2 s1 s2 ob1 ob2 P1 P2 E1 E2).
+  apply tmap_ext_lookup.
+  - pose proof (run_hexmap ops1 init_state (warm_empty H) P1 hexmap_empty) as X. now rewrite E1 in X.
+  - pose proof (run_hexmap ops2 init_state (warm_empty H) P2 hexmap_empty) as X. now rewrite E2 in X.
+  - intros kb. unfold tmap, tcontent. fold (wmap (strie s1) kb). fold (wmap (strie s2) kb). now rewrite M1, M2.
+Qed.
+
+(* iteration lists exactly the content, with byte keys, in the iterator's order *)
+Theorem trie_iterate_spec : forall t d, warm_trie H t -> hexmap t -> (max_key_len (tcontent t) <= 99)%nat ->
+  exists l t', trie_iterate H t d = Ok (l, t') /\ warm_trie H t' /\
+    map snd l = map snd (tcontent t) /\ map (fun kv => keybytes_to_hex (fst kv)) l = map fst (tcontent t).
+Proof.
+  intros t d Hw Hm Hk. unfold trie_iterate.
+  destruct (trie_hash_warm H Hlen t Hw) as (t' & E & Hw' & _ & Ec & _). rewrite E. cbn [bind].
+  assert (Hall : Forall (fun kv => exists kb, fst kv = keybytes_to_hex kb) (content_of (troot t'))).
+  { rewrite Ec. apply Forall_forall. intros [k v] Hin. cbn [fst].
+    apply (Hm k v). exact (proj1 (lookup_in H _ k v (proj1 (canon_root_wf_content _ (proj1 Hw)))) Hin). }
+  destruct (leaves_hexed (troot t') d (tgen t') (proj1 Hw') ltac:(rewrite Ec; exact Hk) Hall) as (l & El & Hs & Hf).
+  rewrite El. cbn [bind]. exists l, t'. unfold tcontent. rewrite <- Ec. auto.
+Qed.
+End PlainHistories.
+
+(* ------------------------------------------------------------------ commit, reopen, read back *)
+Section CommitReopen.
+Variable H : bytes -> bytes.
+Hypothesis Hlen : forall x, length (H x) = 32%nat.
+Hypothesis Hcf : forall m1 m2, canon m1 = true -> canon m2 = true ->
+  H (spec_enc H m1) = H (spec_enc H m2) -> spec_enc H m1 = spec_enc H m2.
+
+(* a history of updates/deletes, one Commit, trie.New on the returned root: every
+   TryGet on the reopened trie returns what the history's finite map says *)
+Theorem history_commit_reopen : forall ops d t r t' d',
+  apply_ops empty_trie d ops = Ok t -> all_fits H (troot t) -> db_sound H d ->
+  trie_commit H t d = Ok (r, t', d') -> r <> zero_hash -> (troot t <> NNil -> r <> empty_root H) ->
+  r = mpt_root_hex H (tcontent t) /\
+  exists t2, trie_new H r d' = Ok t2 /\
+    forall k, exists t3, trie_get t2 d' k = Ok (map_ops (fun _ => None) ops k, t3).
+Proof.
+  intros ops d t r t' d' E Hfit Hd Ec Hz He.
+  destruct (history_spec ops d) as (tx & Ex & [Hc Hn] & Hm). rewrite E in Ex. injection Ex as <-.
+  destruct (commit_reopen H Hlen Hcf t d r t' d' Hc Hn Hfit Hd Ec Hz He) as (Er & _ & t2 & En & Hg).
+  split; [exact Er|]. exists t2. split; [exact En|].
+  intros k. destruct (Hg k) as (t3 & Eg). exists t3. rewrite Eg. f_equal. f_equal. apply Hm.
+Qed.
+End CommitReopen.
